@@ -16,6 +16,7 @@ import LA.Lemmas.Stream
 import LA.Lemmas.Pax
 import LA.Lemmas.CpioStream
 import LA.Lemmas.CpioStreamOdc
+import LA.Lemmas.CpioAccept
 import LA.Props.C10
 namespace LA.C02
 open LA.Codec LA.NumFmt
@@ -183,6 +184,43 @@ theorem stream_roundtrip_odc (es : List (Entry × List (List Nat))) (hes : ∀ e
   obtain ⟨rbs, h, hall⟩ := cpioRead_odc_entries es hes {} 0 inoInv_empty (by omega) (writeEntries .odc {} es).2 _
     ARCHIVE_FORMAT_CPIO_POSIX [] []
   exact ⟨rbs, by rw [h]; simp, hall⟩
+
+open LA.Gen.CodecConsts in
+/-- The same for **representable** entries, in the words of the property: every list of entries the
+format description `representable .newc` admits (C strings, link targets of at most 1 MiB, not named
+`TRAILER!!!`) is accepted entry by entry and reads back as all of them, in order, equal to `norm`. -/
+theorem stream_roundtrip_newc_representable (es : List (Entry × List (List Nat)))
+    (hes : ∀ ec ∈ es, wfEntry ec.1 ∧ representable .newc ec.1 = true ∧ ec.1.sym.length ≤ 1048576 ∧
+      ec.1.path ≠ some trailerName ∧ (∀ p, ec.1.path = some p → p.length < 2147483647))
+    (bpb : Nat) (bilb : Int) :
+    ∃ rbs, cpioRead false true (writeArchive .newc es bpb bilb) ARCHIVE_FORMAT_CPIO_SVR4_NOCRC [] []
+        = ⟨ARCHIVE_FORMAT_CPIO_SVR4_NOCRC, rbs, .eof, 0⟩ ∧ AllPairs (CpioReadsBack .newc) es rbs := by
+  have hacc : ∀ ec ∈ es, newcAccepted ec.1 = true := fun ec h =>
+    representable_newc_accepted ec.1 (hes ec h).2.1 (hes ec h).2.2.1
+  obtain ⟨rbs, h, hall⟩ := stream_roundtrip_newc es (fun ec h =>
+    ⟨(hes ec h).1, representable_symiff _ _ (hes ec h).2.1, (hes ec h).2.2.1, (hes ec h).2.2.2.1, (hes ec h).2.2.2.2,
+     Or.inl (by have := hacc ec h; unfold newcAccepted at this; simpa using this)⟩) bpb bilb
+  refine ⟨rbs, h, ?_⟩
+  have : es.filter (fun ec => newcAccepted ec.1) = es := List.filter_eq_self.2 hacc
+  rw [this] at hall; exact hall
+
+open LA.Gen.CodecConsts in
+theorem stream_roundtrip_odc_representable (es : List (Entry × List (List Nat)))
+    (hes : ∀ ec ∈ es, wfEntry ec.1 ∧ representable .odc ec.1 = true ∧ ec.1.sym.length ≤ 1048576 ∧
+      ec.1.path ≠ some trailerName ∧
+      (0 ≤ ec.1.rdevmajor ∧ ec.1.rdevmajor < 4294967296) ∧ (0 ≤ ec.1.rdevminor ∧ ec.1.rdevminor < 4294967296))
+    (hn : es.length ≤ 262143) (bpb : Nat) (bilb : Int) :
+    ∃ rbs, cpioRead false false (writeArchive .odc es bpb bilb) ARCHIVE_FORMAT_CPIO_POSIX [] []
+        = ⟨ARCHIVE_FORMAT_CPIO_POSIX, rbs, .eof, 0⟩ ∧ AllPairs (CpioReadsBack .odc) es rbs := by
+  have hacc : ∀ ec ∈ es, odcAccepted ec.1 = true := fun ec h =>
+    representable_odc_accepted ec.1 (hes ec h).2.1 (hes ec h).2.2.1
+  obtain ⟨rbs, h, hall⟩ := stream_roundtrip_odc es (fun ec h =>
+    ⟨(hes ec h).1, representable_symiff _ _ (hes ec h).2.1, (hes ec h).2.2.1, (hes ec h).2.2.2.1, (hes ec h).2.2.2.2.1,
+     (hes ec h).2.2.2.2.2,
+     Or.inl (by have := hacc ec h; unfold odcAccepted at this; simpa using this)⟩) hn bpb bilb
+  refine ⟨rbs, h, ?_⟩
+  have : es.filter (fun ec => odcAccepted ec.1) = es := List.filter_eq_self.2 hacc
+  rw [this] at hall; exact hall
 
 /-- e.g. a regular file with a 5-byte body in two chunks, a symbolic link, a refused entry (no
 size), a directory: three of the four are accepted. -/
